@@ -20,9 +20,9 @@ func init() {
 			"R1 synchronous dispatch (the message returned by the per-iteration read is handed by a plain call — not go, not a channel send — to a function from which a handler invocation is reachable by plain calls, and every cycle through the read passes that call), " +
 			"R2 no go statement on the dispatch chain whose target reaches a handler invocation, " +
 			"R3 every connection constructor call site is followed on its success path by exactly one `go <connection loop>` and the loop is never called synchronously, " +
-			"R4 no exclusive lock may be held at a handler invocation on the chain (read locks allowed), " +
+			"R4 no mutex that the library write-locks anywhere may be held — exclusively or shared — at a handler invocation or at a call leading to one (a shared hold across a handler is enough for Go's writer-preferring RWMutex to stall every other connection once a registration waits), " +
 			"R5 no function of the dispatch closure performs a blocking channel send/receive/select or wait (only non-blocking selects), so no shared queue or semaphore can couple connections. " +
-			"These are necessary conditions of C08; the check does not decide actual schedules, handler durations or RWMutex writer starvation.",
+			"These are necessary conditions of C08; the check does not decide actual schedules or handler durations. Roots of the chain are every Handler implementation and every handler-typed value the library invokes.",
 		Rules: map[string]string{
 			"R1": "in the connection loop the read message flows by a plain call to the dispatch chain; no cycle through the read avoids the dispatch call except via the read-error exit",
 			"R2": "no `go` whose target reaches a handler invocation in any function of the dispatch closure",
